@@ -134,6 +134,22 @@ added to any of the structs lands in none of the classes and breaks this theorem
 theorem C06_fields_classified : ∀ f : Field, (A8 f || StartWrites f || Dead f || PartialField f) = true := by
   intro f; cases f <;> rfl
 
+/-- **Poison sets are sound w.r.t. the proofs.**  Whatever the harness overwrites before a load lies in the
+agreement set after a load and is not persistent (so `C06_history_independent`, whose only hypothesis on
+the prior states is agreement on `Persistent`, covers the poisoned context); whatever it overwrites before
+`xmp_start_player` is rewritten by it and lies outside `B` (so `C06_restart_independent` covers it).  The
+two sets also exhaust what must be reset: every member that is neither persistent, dead, partially live,
+idle-by-invariant, a pointer-only member of the loader, nor `state` is poisoned at one of the two points. -/
+theorem C06_poison_sets :
+    (∀ f, LoadResets f = true → A7 f = true ∧ Persistent f = false) ∧
+    (∀ f, StartResets f = true → (StartWrites f || MixerWrites f) = true ∧ B f = false ∧ Persistent f = false) ∧
+    (∀ f, (LoadResets f || StartResets f || Persistent f || Dead f || PartialField f || IdleField f
+            || LoaderMayWrite f || f == .state || f == .p_scan || f == .m_mod_len) = true) := by
+  refine ⟨?_, ?_, ?_⟩
+  · intro f hf; cases f <;> first | exact ⟨rfl, rfl⟩ | exact absurd hf (by decide)
+  · intro f hf; cases f <;> first | exact ⟨rfl, rfl, rfl⟩ | exact absurd hf (by decide)
+  · intro f; cases f <;> rfl
+
 /-- the classes are used consistently: nothing persistent is dead, partial or overwritten by start -/
 theorem C06_persistent_disjoint : ∀ f, Persistent f = true →
     (StartWrites f || Dead f || PartialField f || LoaderMayWrite f || NameField f || MixerWrites f) = false := by
